@@ -84,6 +84,8 @@ def _race(case: dict) -> dict:
             continue
         obs["quiescent_runs"] += 1
         v = oracles.attribute(oracles.quiescence_check(run, "C05", spec), run, "C05")
+        if getattr(run, "dlq_after_final", False):
+            obs["dead_lettered_message_in_final_workflow"] += 1
         if v:
             lp = oracles.lost_plan_witness(run)
             if lp:
@@ -124,6 +126,8 @@ def _late_start(case: dict) -> dict:
                     continue
                 obs["quiescent_runs"] += 1
                 v = oracles.attribute(oracles.quiescence_check(run, "C05", spec), run, "C05")
+                if getattr(run, "dlq_after_final", False):
+                    obs["dead_lettered_message_in_final_workflow"] += 1
                 for x in v:
                     x.update(spec=spec["name"], held_start_stage=nth, held_for=steps)
                 violations += v
@@ -205,6 +209,8 @@ def _commit_fault(case: dict) -> dict:
             continue
         obs["quiescent_runs"] += 1
         v = oracles.attribute(oracles.quiescence_check(run, "C05", spec), run, "C05")
+        if getattr(run, "dlq_after_final", False):
+            obs["dead_lettered_message_in_final_workflow"] += 1
         if run.state["wf"] != base.state["wf"] and not v:
             obs["outcome_changed_by_commit_fault"] += 1
         for x in v:
@@ -248,6 +254,8 @@ def run_case(case: dict) -> dict:
             continue
         obs["quiescent_runs"] += 1
         v = oracles.attribute(oracles.quiescence_check(run, "C05", spec), run, "C05")
+        if getattr(run, "dlq_after_final", False):
+            obs["dead_lettered_message_in_final_workflow"] += 1
         for x in v:
             x["spec"] = spec["name"]
         violations += v
